@@ -65,6 +65,16 @@ CHECKS = {
    note="Trusted: Lean kernel, standard axioms, harness. Partial: the character-level step lex(render e) = tokens is covered by the correspondence run and by the "
         "lexer lemmas of C06/C19, not yet by one end-to-end theorem. Five printer defects were repaired first (fix: 6e13462 b3ff485 5b649a4 51169b6).",
    design="§6 C13", technique="Lean 4 proof (order-embedding of precedence tables, paren soundness) + tie theorem + string-exact differential correspondence + executed round trip"),
+ "C10": dict(
+   text="Lean 4 theorem `C10.total`: for EVERY string and every character-class environment, the lexer+parser model returns an AST or one of the "
+        "four library errors (tokenizing, parsing, unknown function, argument count) - built from lex_progress (every rule consumes a character), "
+        "lex_fuel_irrelevant, parse_no_fuel (the recursion budget 4n+8 is never exhausted), parse_no_foreign (grammar actions never take an "
+        "AttributeError/IndexError/NotImplementedError path) and lib_hierarchy (extracted class tree: all four descend from ODataException). "
+        "The model is run against the real lexer+parser on all atom sequences up to length 3-4, mutated filters, random Unicode, and long "
+        "repetitive inputs under a per-case time budget; outcomes compared exactly (class, position, payload).",
+   note="Trusted: Lean kernel, standard axioms, harness. Partial: termination / memory of the real LR driver and of CPython's regex engine are runtime facts (20 s per-case budget, "
+        "inputs up to 20-60 k characters); SLY's LALR construction and re are modelled. Three parser defects were repaired first (fix: 24b763b 1659103 dc4172f).",
+   design="§6 C10", technique="Lean 4 proof (totality: fuel sufficiency + action type-safety by induction on fuel) + tie theorems + exhaustive/seeded differential correspondence"),
 }
 NOT_APPLICABLE = {}
 
